@@ -344,6 +344,8 @@ def build_class(d, ctx, base=None):
     body["_additional_properties"] = bool(d.get("addl", True))
     if d.get("ignoreNone"):
         body["_ignore_none"] = True
+    if d.get("undef"):      # C11: classes that distinguish "never set" from "explicitly None"
+        body["_enable_undefined_value"] = True
     bases = (ImmutableStructure,) if d.get("immutable") else (Structure,)
     cls = type(d["name"], bases, body)
     ctx.classes[d["name"]] = cls
@@ -495,6 +497,8 @@ def _dump_class(cls, ctx, order):
                             if isinstance(c, type) and issubclass(c, cls)} | {cls.__name__})}
     if getattr(cls, "_ignore_none", False):
         d["ignoreNone"] = True
+    if getattr(cls, "_enable_undefined_value", False):
+        d["undef"] = True
     if getattr(cls, "_immutable", False):
         d["immutable"] = True
     imm_fields = sorted(n for n, f in fields.items() if isinstance(f, typedpy.structures.ImmutableField))
